@@ -240,8 +240,20 @@ func handleExceptionSignal(vm *r.VM, blockModule *r.Module, blockDepth int, catc
 			continue
 		}
 
-		// if exception block matches exception className
-		if objClassName != "" && classID.GetLiteral() == objClassName {
+		// does the exception belong to the class this handler names? What the NAME denotes in
+		// the handling body's module decides - a type of another module that merely has the
+		// same name is another class, and a type held under another name is still that type.
+		// (A name that denotes no type there matches by its text, as before)
+		matched := objClassName != "" && classID.GetLiteral() == objClassName
+		if cm, ok := vm.FindElementInModule(blockModule, classID).(*value.ClassModel); ok {
+			switch ex := exception.(type) {
+			case *value.Object:
+				matched = ex.IsInstanceOf(cm)
+			case *value.Exception:
+				matched = cm == ZnConstExceptionClass
+			}
+		}
+		if matched {
 			// the exception is handled here: drop the frames of the calls it has terminated
 			// (they are kept on failure only to display the call chain of an uncaught error)
 			for len(vm.GetCallStack()) > blockDepth {
